@@ -12,6 +12,8 @@ import (
 	"runtime/debug"
 	"time"
 
+	"google.golang.org/protobuf/proto"
+	"google.golang.org/protobuf/reflect/protoreflect"
 	"google.golang.org/protobuf/types/known/structpb"
 	"google.golang.org/protobuf/types/known/timestamppb"
 	"pgregory.net/rapid"
@@ -135,3 +137,79 @@ func AlienPkix(kind string) []byte {
 
 // AlienKinds lists the kinds AlienPkix knows.
 var AlienKinds = []string{"ecdsa", "x25519", "rsa"}
+
+// Dirty fills every field of m (recursively, two levels deep) with non-zero
+// stale content, as a message that was used before would carry.
+func Dirty(m proto.Message) { dirty(m.ProtoReflect(), 2) }
+
+func dirty(m protoreflect.Message, depth int) {
+	fds := m.Descriptor().Fields()
+	for i := 0; i < fds.Len(); i++ {
+		fd := fds.Get(i)
+		if fd.ContainingOneof() != nil && fd.ContainingOneof().Fields().Get(0) != fd {
+			continue
+		}
+		scalar := func() (protoreflect.Value, bool) {
+			switch fd.Kind() {
+			case protoreflect.BoolKind:
+				return protoreflect.ValueOfBool(true), true
+			case protoreflect.EnumKind:
+				vals := fd.Enum().Values()
+				return protoreflect.ValueOfEnum(vals.Get(vals.Len() - 1).Number()), true
+			case protoreflect.Int32Kind, protoreflect.Sint32Kind, protoreflect.Sfixed32Kind:
+				return protoreflect.ValueOfInt32(77), true
+			case protoreflect.Int64Kind, protoreflect.Sint64Kind, protoreflect.Sfixed64Kind:
+				return protoreflect.ValueOfInt64(77), true
+			case protoreflect.Uint32Kind, protoreflect.Fixed32Kind:
+				return protoreflect.ValueOfUint32(77), true
+			case protoreflect.Uint64Kind, protoreflect.Fixed64Kind:
+				return protoreflect.ValueOfUint64(77), true
+			case protoreflect.FloatKind:
+				return protoreflect.ValueOfFloat32(7.5), true
+			case protoreflect.DoubleKind:
+				return protoreflect.ValueOfFloat64(7.5), true
+			case protoreflect.StringKind:
+				return protoreflect.ValueOfString("stale-" + string(fd.Name())), true
+			case protoreflect.BytesKind:
+				return protoreflect.ValueOfBytes([]byte("stale-" + string(fd.Name()))), true
+			}
+			return protoreflect.Value{}, false
+		}
+		switch {
+		case fd.IsMap():
+			mp := m.Mutable(fd).Map()
+			kd, vd := fd.MapKey(), fd.MapValue()
+			if kd.Kind() != protoreflect.StringKind {
+				continue
+			}
+			if vd.Kind() == protoreflect.MessageKind {
+				if depth > 0 {
+					v := mp.NewValue()
+					dirty(v.Message(), depth-1)
+					mp.Set(protoreflect.ValueOfString("stale-key").MapKey(), v)
+				}
+			} else if vd.Kind() == protoreflect.StringKind {
+				mp.Set(protoreflect.ValueOfString("stale-key").MapKey(), protoreflect.ValueOfString("stale"))
+			}
+		case fd.IsList():
+			l := m.Mutable(fd).List()
+			if fd.Kind() == protoreflect.MessageKind {
+				if depth > 0 {
+					e := l.NewElement()
+					dirty(e.Message(), depth-1)
+					l.Append(e)
+				}
+			} else if v, ok := scalar(); ok {
+				l.Append(v)
+			}
+		case fd.Kind() == protoreflect.MessageKind:
+			if depth > 0 {
+				dirty(m.Mutable(fd).Message(), depth-1)
+			}
+		default:
+			if v, ok := scalar(); ok {
+				m.Set(fd, v)
+			}
+		}
+	}
+}
